@@ -19,6 +19,11 @@ Mirrors, function for function (file:line of the provenance repository):
   `ValidateAndCollectCommitmentCreationFee`, `MsgServer.CommitFunds`  keeper/commitments.go:73,101,251; msg_server.go:48
 * `validateAcceptingOrdersAndCanUserSettle`, the admission prefix of `FillBids` / `FillAsks`
                                                               keeper/fulfillment.go:31,42,138
+* `FillBids` / `FillAsks` after the gate: `getBidOrders` / `getAskOrders` (keeper/orders.go:536,496),
+  `sumAssetsAndPrice` and the `Equal` checks of the totals (fulfillment.go:20,66,160),
+  `calculateSellerSettlementRatioFee` (keeper/market.go:458), and the filler's side of
+  `closeSettlement` (fulfillment.go:267) + the creation fee collected last — `Order`,
+  `getOrders`, `fillBids`, `fillAsks`
 * the per-market messages of the governance authority, which do not look whether the market
   exists: `UpdateMarketAcceptingOrders` / `UpdateUserSettlementAllowed` /
   `UpdateMarketAcceptingCommitments` (keeper/market.go:898,916,934), `CloseMarket` (:1602),
@@ -586,5 +591,197 @@ def fillAsksGate (mk : Option Market) (accAttrs : List String) (cfee : Option Co
   | .ok mkt =>
     if !acctHasReqAttrs mkt.reqBid accAttrs then .error .attr
     else validateCreateBidFees mkt cfee totalPrice fees
+
+/-! ### User fills after the gate: the named orders, the totals, the seller ratio fee, the funds
+
+`FillBids` / `FillAsks` (keeper/fulfillment.go:42,138) after `validateCreateAskFees` /
+`validateCreateBidFees`: `getBidOrders` / `getAskOrders` (keeper/orders.go:536,496),
+`sumAssetsAndPrice` (fulfillment.go:20) and the `Equal` check of the totals,
+`calculateSellerSettlementRatioFee` (keeper/market.go:458), and — as far as the filler's own
+funds decide it — `closeSettlement` (fulfillment.go:267: the two transfers, then the fees) and
+the creation fee collected last. -/
+
+/-- A resting order as stored (x/exchange `Order` holding an `AskOrder` or a `BidOrder`). -/
+structure Order where
+  id : Nat
+  isBid : Bool
+  marketId : Nat
+  owner : String
+  assets : Coin
+  price : Coin
+  deriving Repr, DecidableEq
+
+/-- keeper/orders.go `getOrderFromStore`: the order stored under the id (`none` = not found). -/
+def getOrder : List Order → Nat → Option Order
+  | [], _ => none
+  | o :: rest, id => if o.id = id then some o else getOrder rest id
+
+/-- keeper/orders.go:496,536 `getAskOrders` / `getBidOrders` (`wantBid`): every id must name a
+stored order of the wanted side, in the requested market, that is not the filler's own.  The Go
+loop collects one error per id that fails and returns them joined: `none` = some id failed. -/
+def getOrders (book : List Order) (marketId : Nat) (wantBid : Bool) (filler : String) :
+    List Nat → Option (List Order)
+  | [] => some []
+  | id :: rest =>
+    match getOrder book id with
+    | none => none                                         -- "order %d not found"
+    | some o =>
+      if o.isBid ≠ wantBid then none                       -- "is type %s: expected …"
+      else if o.marketId ≠ marketId then none              -- "market id %d does not equal requested market id"
+      else if o.owner = filler then none                   -- "has the same buyer/seller as the requested …"
+      else match getOrders book marketId wantBid filler rest with
+        | none => none
+        | some os => some (o :: os)
+
+/-- keeper/market.go:1602 `CloseMarket` → `CancelAllOrdersForMarket`: MsgGovCloseMarket cancels
+every resting order of the market.  The resting orders of market `marketId` that were created
+before the authority messages `steps` and are still there after them. -/
+def ordersAfter (steps : List Step) (marketId : Nat) (book : List Order) : List Order :=
+  if steps.any (fun st => match st with | .close => true | _ => false)
+  then book.filter fun o => decide (o.marketId ≠ marketId) else book
+
+/-- `sdk.Coins.Equal` of a sum built with `Coins.Add` and a valid `sdk.Coins`: both are
+canonical (sorted, merged, no zero), so they are equal exactly when every denom has the same
+amount in both. -/
+def coinsEqv (a b : Coins) : Bool :=
+  (Coins.denoms a ++ Coins.denoms b).all fun d => decide (Coins.amountOf a d = Coins.amountOf b d)
+
+/-- The denoms of the canonical sum of a coin list (`range totalPrice` in `FillBids`): each
+denom once, zero sums dropped. -/
+def sumDenoms (cs : Coins) : List Denom :=
+  (Coins.denoms cs).eraseDups.filter fun d => decide (Coins.amountOf cs d ≠ 0)
+
+/-- x/exchange/msgs.go `ValidateOrderIDs`: at least one id, none zero, none twice. -/
+def orderIdsValid (ids : List Nat) : Bool :=
+  !ids.isEmpty && ids.all (fun i => decide (i ≠ 0)) && decide ids.Nodup
+
+structure FillBidsMsg where
+  marketId : Nat
+  totalAssets : List Coin
+  ids : List Nat
+  sflat : Option Coin
+  cfee : Option Coin
+  deriving Repr
+
+structure FillAsksMsg where
+  marketId : Nat
+  totalPrice : Coin
+  ids : List Nat
+  fees : List Coin
+  cfee : Option Coin
+  deriving Repr
+
+/-- x/exchange/msgs.go:157 `MsgFillBidsRequest.ValidateBasic`. -/
+def FillBidsMsg.valid (m : FillBidsMsg) : Bool :=
+  decide (m.marketId ≠ 0) && !m.totalAssets.isEmpty && coinsValid m.totalAssets &&
+  orderIdsValid m.ids && fillBidsValid m.cfee m.sflat
+
+/-- x/exchange/msgs.go:197 `MsgFillAsksRequest.ValidateBasic`. -/
+def FillAsksMsg.valid (m : FillAsksMsg) : Bool :=
+  decide (m.marketId ≠ 0) && orderIdsValid m.ids && fillAsksValid m.cfee m.totalPrice m.fees
+
+/-- keeper/market.go:458 `calculateSellerSettlementRatioFee`: `.ok none` = the market defines no
+seller ratio at all; `.error` = it defines some but none for this price denom, or the fee does
+not fit 256 bits (`ApplyToLoosely` "result too large"). -/
+def calcSellerRatioFee (rs : List Ratio) (price : Coin) : Except Rej (Option Coin) :=
+  match getSellerSettlementRatio rs price.1 with
+  | .error e => .error e
+  | .ok none => .ok none
+  | .ok (some r) =>
+    match applyToLoosely r price with
+    | .ok f => .ok (some (price.1, f))
+    | .error _ => .error .price
+
+/-- fulfillment.go:95 the loop `for _, price := range totalPrice` of `FillBids`: the seller
+ratio fee of every denom of the summed price (errors are collected; any one refuses). -/
+def sellerRatioFees (rs : List Ratio) (prices : Coins) : List Denom → Except Rej Coins
+  | [] => .ok []
+  | d :: rest =>
+    match calcSellerRatioFee rs (d, Coins.amountOf prices d) with
+    | .error e => .error e
+    | .ok f =>
+      match sellerRatioFees rs prices rest with
+      | .error e => .error e
+      | .ok fs => .ok (f.toList ++ fs)
+
+def optCoins (c : Option Coin) : Coins := match c with | some c => [c] | none => []
+
+/-- What the seller of `FillBids` needs (fulfillment.go:110-136, `closeSettlement` :267): the
+total assets go out first, the summed price comes in (out of the buyers' released holds), the
+seller settlement fees (flat + ratio) are collected after the transfers, the ask creation fee
+last.  A failing transfer does not stop the next step but refuses the message all the same. -/
+def fillBidsFunds (bal totalAssets totalPrice sellerFee : Coins) (cfee : Option Coin) : Bool :=
+  covers bal totalAssets &&
+  covers (Coins.add (Coins.sub bal totalAssets) totalPrice) sellerFee &&
+  covers (Coins.sub (Coins.add (Coins.sub bal totalAssets) totalPrice) sellerFee) (optCoins cfee)
+
+/-- What the buyer of `FillAsks` needs (fulfillment.go:205-231): the assets come in first (out
+of the sellers' released holds), the total price goes out, the buyer settlement fees are
+collected after the transfers, the bid creation fee last. -/
+def fillAsksFunds (bal totalAssets : Coins) (totalPrice : Coin) (fees : Coins) (cfee : Option Coin) : Bool :=
+  covers (Coins.add bal totalAssets) [totalPrice] &&
+  covers (Coins.sub (Coins.add bal totalAssets) [totalPrice]) fees &&
+  covers (Coins.sub (Coins.sub (Coins.add bal totalAssets) [totalPrice]) fees) (optCoins cfee)
+
+/-- How a user fill can refuse: at the market's gate (`Rej`), or after it. -/
+inductive FillRej where
+  | gate (e : Rej)   -- ValidateBasic, market, flags, attributes, creation / settlement fee options
+  | order            -- an id names no order / an order of the other side / of another market / the filler's own
+  | total            -- "total assets … does not equal sum of bid order assets" / "total price … ask order prices"
+  | ratio            -- "error calculating seller settlement ratio fee"
+  | funds            -- a transfer or a fee collection failed
+  deriving DecidableEq, Repr
+
+def FillRej.toString : FillRej → String
+  | .gate e => e.toString
+  | .order => "err:order"
+  | .total => "err:total"
+  | .ratio => "err:price"
+  | .funds => "err:funds"
+
+/-- fulfillment.go:42 `FillBids` (through `MsgServer.FillBids`) as far as the filler decides it:
+the owners of the named orders hold what their orders promise (the hold placed when the order
+was accepted). -/
+def fillBids (mk : Option Market) (accAttrs : List String) (book : List Order) (filler : String)
+    (bal : Coins) (m : FillBidsMsg) : Except FillRej Unit :=
+  if !m.valid then .error (.gate .invalid) else
+  match mk with
+  | none => .error (.gate .market)
+  | some mkt =>
+    match fillBidsGate (some mkt) accAttrs m.cfee m.sflat with
+    | .error e => .error (.gate e)
+    | .ok _ =>
+      match getOrders book m.marketId true filler m.ids with
+      | none => .error .order
+      | some orders =>
+        let assets : Coins := orders.map (·.assets)
+        let prices : Coins := orders.map (·.price)
+        if !coinsEqv assets m.totalAssets then .error .total else
+        match sellerRatioFees mkt.sellerRatios prices (sumDenoms prices) with
+        | .error _ => .error .ratio
+        | .ok rfees =>
+          if fillBidsFunds bal m.totalAssets prices (optCoins m.sflat ++ rfees) m.cfee then .ok ()
+          else .error .funds
+
+/-- fulfillment.go:138 `FillAsks` (through `MsgServer.FillAsks`) as far as the filler decides it.
+The seller ratio fee of every named ask is computed (and may refuse) although the sellers pay it. -/
+def fillAsks (mk : Option Market) (accAttrs : List String) (book : List Order) (filler : String)
+    (bal : Coins) (m : FillAsksMsg) : Except FillRej Unit :=
+  if !m.valid then .error (.gate .invalid) else
+  match mk with
+  | none => .error (.gate .market)
+  | some mkt =>
+    match fillAsksGate (some mkt) accAttrs m.cfee m.totalPrice m.fees with
+    | .error e => .error (.gate e)
+    | .ok _ =>
+      match getOrders book m.marketId false filler m.ids with
+      | none => .error .order
+      | some orders =>
+        let assets : Coins := orders.map (·.assets)
+        let prices : Coins := orders.map (·.price)
+        if !coinsEqv prices [m.totalPrice] then .error .total else
+        if orders.any (fun o => match calcSellerRatioFee mkt.sellerRatios o.price with
+                                | .error _ => true | .ok _ => false) then .error .ratio else
+        if fillAsksFunds bal assets m.totalPrice m.fees m.cfee then .ok () else .error .funds
 
 end PvModel.Admit
